@@ -402,6 +402,8 @@ type FuncContract struct {
 	Ensures   []*Clause
 	Assigns   []string // heap components ("Type.field", "Type.*", "*")
 	HasAssign bool
+	Writes    []string // lock-guarded fields the function (with its callees) may write; distinct from assigns, which also
+	HasWrites bool     // lists what a caller must forget because the callee takes locks
 	Loops     map[int]*LoopContract
 	Pure      bool
 	Trusted   bool // assumed, body not verified
@@ -496,7 +498,7 @@ func (cs *Contracts) ParseContractFile(path string, pkgName string, isSpec bool)
 		line int
 	}
 	var lines []lline
-	heads := []string{"func ", "type ", "spec ", "dead ", "axiom ", "lemma ", "global ", "props ", "arith ", "requires", "ensures", "trusted_ensures", "assigns", "loop ", "pure", "trusted", "trustframe", "noglobals", "validator", "errors_propagated", "constructor", "unbounded_alloc", "noinline", "fresh ", "note ", "assert", "invariant ", "invariant[", "guarded_by ", "owns ", "immutable", "decreases ", "ghost ", "lastcall ", "allocbound "}
+	heads := []string{"func ", "type ", "spec ", "dead ", "axiom ", "lemma ", "global ", "props ", "arith ", "requires", "ensures", "trusted_ensures", "assigns", "writes", "loop ", "pure", "trusted", "trustframe", "noglobals", "validator", "errors_propagated", "constructor", "unbounded_alloc", "noinline", "fresh ", "note ", "assert", "invariant ", "invariant[", "guarded_by ", "owns ", "immutable", "decreases ", "ghost ", "lastcall ", "allocbound "}
 	for i, raw := range strings.Split(string(data), "\n") {
 		s := strings.TrimSpace(raw)
 		if !strings.HasPrefix(s, "//@") {
@@ -728,6 +730,13 @@ func (cs *Contracts) ParseContractFile(path string, pkgName string, isSpec bool)
 			}
 		case strings.HasPrefix(s, "note "):
 			curF.Notes = append(curF.Notes, strings.TrimSpace(s[5:]))
+		case strings.HasPrefix(s, "writes"):
+			curF.HasWrites = true
+			for _, a := range strings.Split(strings.TrimSpace(s[6:]), ",") {
+				if a = strings.TrimSpace(a); a != "" && a != "nothing" {
+					curF.Writes = append(curF.Writes, a)
+				}
+			}
 		case strings.HasPrefix(s, "assigns"):
 			curF.HasAssign = true
 			for _, a := range strings.Split(strings.TrimSpace(s[7:]), ",") {
